@@ -277,6 +277,17 @@ class Flow:
 
     def _version(self, name: str, at: int, root: int) -> str | None:
         """If `name` denotes a different value at `at` than at `root` (it was redefined in between), a versioned label."""
+        if getattr(self, "absolute_versions", False):
+            # every occurrence of a multiply-defined variable carries the set of definitions it can see: the label does
+            # not depend on where the enclosing statement stands relative to other statements
+            ranks_all = [i for i, d in enumerate(self.defs) if d.var == name and d.kind != "mutate"]
+            if len(ranks_all) < 2:
+                return None
+            a = sorted(self.defs.index(d) for d in self.reaching(name, at) if d.kind != "mutate")
+            if not a:
+                return None
+            ranks = [i for i, d in enumerate(self.defs) if d.var == name]
+            return f"{name}@" + "_".join(str(ranks.index(i)) for i in a)
         if at == root:
             return None
         a = sorted(self.defs.index(d) for d in self.reaching(name, at) if d.kind != "mutate")
@@ -313,6 +324,12 @@ class Flow:
             tn = self.cfg.node_for(st)
             if not self.cfg.dominates(tn, at) or tn == at:
                 continue
+            if pf is not ps:
+                # "assigned before, overridden under the if": the earlier value must be the only one entering the if
+                # (a loop-carried variable is not a two-way merge)
+                entering = [d for d in self.reaching(a.var, tn) if d.kind != "mutate"]
+                if len(entering) != 1 or entering[0] is not (df if dt.stmt in st.body else dt):
+                    continue
             # the merged name must not be assigned anywhere else inside the arms
             stores = [n for s_ in st.body + st.orelse for n in ast.walk(s_) if isinstance(n, ast.Name) and n.id == a.var and isinstance(n.ctx, ast.Store)]
             if len(stores) != (2 if dt.stmt in st.body + st.orelse and df.stmt in st.body + st.orelse else 1):
@@ -458,6 +475,9 @@ class Flow:
                     return ast.copy_location(base, node)
                 if d.kind != "assign" or d.value is None:
                     return leave(node)
+                if any(isinstance(n_, ast.Name) and n_.id == node.id and isinstance(n_.ctx, ast.Load) for n_ in ast.walk(d.value)) \
+                        and d in flow.reaching(node.id, d.node):
+                    return leave(node)   # loop-carried `x = x + y` is an update of x like `x += y`: the running value keeps its name
                 if any(m.var == node.id and m.kind == "mutate" and isinstance(m.value, ast.Call) for m in flow.defs_at.get(at, ())):
                     return leave(node)   # the object being updated in place by this very statement keeps its name
                 # a stateful call substituted for its temporary denotes "the latest execution of call site #k", which is
